@@ -21,8 +21,8 @@ ASSUMPTIONS = ["clang ASan/UBSan/libFuzzer and the library's own VERIFY_CHECKs a
 FUZZ_TARGETS = [
     # VERIFY + ASan + UBSan: ~3 ms CPU per execution (one scalar multiplication costs ~1 ms in this build)
     FuzzTarget("fuzz_untrusted", "fuzz_untrusted.c", cfgs={"quick": ["vsan"], "thorough": ["vsan"]},
-               runs={"quick": 18000, "thorough": 400000}, workers={"quick": 12, "thorough": 12}, max_len=9000, corpus="fuzz_untrusted", timeout=60),
+               runs={"quick": 15000, "thorough": 400000}, workers={"quick": 12, "thorough": 12}, max_len=9000, corpus="fuzz_untrusted", timeout=60),
     # shipped flags + ASan + UBSan (no VERIFY: other code paths, e.g. no magnitude tracking), ~5x faster
     FuzzTarget("fuzz_untrusted_prod", "fuzz_untrusted.c", cfgs={"quick": ["prod"], "thorough": ["prod"]},
-               runs={"quick": 60000, "thorough": 1500000}, workers={"quick": 4, "thorough": 4}, max_len=9000, corpus="fuzz_untrusted", timeout=60),
+               runs={"quick": 40000, "thorough": 1500000}, workers={"quick": 4, "thorough": 4}, max_len=9000, corpus="fuzz_untrusted", timeout=60),
 ]
